@@ -36,12 +36,13 @@ pub fn lattice_reps(_opts: &Opts, limit: usize, reps: usize, rng: &mut (impl Rng
                 let cap = if cap > 32 { m } else { cap };
                 let class = (i * 5 + rep) % 9;
                 let seeded = m == 1 && (i + rep) % 2 == 0;
-                let kind = match (i + rep) % 6 {
+                let kind = match (i + rep) % 7 {
                     0 | 1 => RngKind::ChaCha(rng.next_u64()),
                     2 => RngKind::Zero,
                     3 => RngKind::Const(0x5a),
                     4 => RngKind::Period2(1, 2),
-                    _ => RngKind::Replay(7),
+                    5 => RngKind::Replay(7),
+                    _ => RngKind::Os,
                 };
                 pts.push((n, m, cap, t, class, seeded, kind));
                 i += 1;
@@ -79,7 +80,7 @@ pub fn honest_fm(out: &mut Out, prop: &str, inst: &fmrun::Inst, kind: &RngKind, 
     let t0 = inst.transcript();
     let tid = t0.shadow_id;
     let stmt = inst.statement();
-    let res = fmrun::Proof::prove_with_rng(&mut { t0 }, &stmt, &inst.witness(), &mut rng);
+    let res = if matches!(kind, RngKind::Os) { fmrun::Proof::prove(&mut { t0 }, &stmt, &inst.witness()) } else { fmrun::Proof::prove_with_rng(&mut { t0 }, &stmt, &inst.witness(), &mut rng) };
     let prover_msm = fm::msm_inputs();
     let _ = fm::tap_take();
     let recs = tap::take();
@@ -182,7 +183,7 @@ pub fn honest_r(out: &mut Out, prop: &str, inst: &rrun::Inst, kind: &RngKind) {
     let key = format!("{} rng={:?}", inst.describe(), kind);
     let mut rng = TestRng::new(kind.clone());
     let stmt = inst.statement();
-    let res = rrun::Proof::prove_with_rng(&mut inst.transcript(), &stmt, &inst.witness(), &mut rng);
+    let res = if matches!(kind, RngKind::Os) { rrun::Proof::prove(&mut inst.transcript(), &stmt, &inst.witness()) } else { rrun::Proof::prove_with_rng(&mut inst.transcript(), &stmt, &inst.witness(), &mut rng) };
     out.oracle(&format!("{}:prove-ok:ristretto", prop), res.is_ok(), &key, &format!("err={:?}", res.as_ref().err()));
     if let Ok(proof) = res {
         for action in rrun::ACTIONS {
